@@ -47,6 +47,11 @@ OkFrame(r) == LET d == r.desc
 OkFrameEnc(r) == /\ r.parse_ok /\ r.cks = r.want_cks /\ r.used = r.len
                  /\ r.window_ge_requested
 
+\* a whole frame built around one header value: a block is decodable iff neither its stored nor its regenerated size
+\* exceeds the block maximum (RFC 8878 3.1.1.2.3); when decodable every API delivers the content, else every API refuses
+OkWhole(r) == LET legal == r.regen <= MaxBlock /\ r.stored <= MaxBlock
+              IN r.accepted = legal /\ (legal => r.content_ok)
+
 Ok(r) == CASE r.k = "ll" -> OkLL(r)
            [] r.k = "ml" -> OkML(r)
            [] r.k = "of" -> OkOF(r)
@@ -60,6 +65,7 @@ Ok(r) == CASE r.k = "ll" -> OkLL(r)
            [] r.k = "blockenc" -> OkBlockEnc(r)
            [] r.k = "frame" -> OkFrame(r)
            [] r.k = "frameenc" -> OkFrameEnc(r)
+           [] r.k = "whole" -> OkWhole(r)
 
 VARIABLE x
 Init == x = 0
